@@ -231,6 +231,21 @@ def run(ctx):
             ctx.violation("oracle", f"decimal {av[1]!r} renders as {text!r} (not a numeral with a fractional part)", rp)
         if av[0] == 's' and not (text.startswith("'") and text.endswith("'")):
             ctx.violation("oracle", f"string renders without quotes: {text!r}", rp)
+        # there is ONE text form: what the language's own conversions produce for the value (string(v), string + v, print(v)) is the same text
+        it.environment.put("v_", v)
+        for form, expect in (("string(v_)", text), ("'' + v_", text), ("'<' + v_ + '>'", "<" + text + ">")):
+            if av[0] in ('null', 'p'):
+                break               # string(NULL) is '', string(pattern) is the pattern's source: conversions, not renderings
+            if av[0] in ('l', 'S', 'm') and form != "string(v_)":
+                continue            # `+` with a collection / NULL is not concatenation
+            if av[0] == 's' and form != "string(v_)":
+                expect = expect.replace(text, av[1])       # a string concatenates as itself, without quotes
+            o_ = common.run_program(it, form, "c08")
+            ctx.count("language_level_texts")
+            want_ = av[1] if (av[0] == 's' and form == "string(v_)") else expect
+            if o_[0] != 'val' or getattr(o_[2], "value", None) != want_:
+                ctx.violation("oracle", f"`{form}` of {proto.show(av)[:120]} gives {str(o_[2])[:160] if o_[0] == 'val' else o_[:2]}, the text form of the value is {want_[:160]!r}", rp)
+                break
         out = common.run_program(it, text, "c08")
         if out[0] != 'val':
             ctx.violation("oracle", f"the rendering {text[:200]!r} of {proto.show(av)[:120]} does not evaluate: {out[:3]}", rp)
